@@ -10,7 +10,7 @@ Given their model meaning (trusted, DESIGN §13): `LocalTimeType::new`, `uN/iN::
 `chain(iter::repeat(0))` / `zip` / `take`, `Option::and_then`, `transpose`. `TimeZone::new` is given the meaning of the
 translated `TimeZoneRef::new` (the owned constructor builds the borrowed view and checks it: C13).
 -/
-import TzVerif.Generated.Src
+import TzVerif.SrcBase
 import TzVerif.Model.TzFile
 import TzVerif.Proofs.SrcEqTzString
 import TzVerif.Proofs.SrcEqZone
